@@ -74,3 +74,24 @@ pub fn range_tokens(r: &mut Rng, nkeys: usize, max_span_chunks: u32) -> (String,
         _ => (format!("in:{}", start), format!("in:{}", end_incl)),
     }
 }
+
+/// ops that OR a sparse pattern (every `step`-th value, `count` values, starting at `start`) into slot `dst`,
+/// built through `from_lsb0_bytes` into `tmp` (linear in the list model, unlike thousands of single inserts)
+pub fn sparse_ops(out: &mut String, dst: &str, tmp: &str, start: u64, step: u64, count: u64) {
+    use std::fmt::Write as _;
+    let off = start & !7;
+    let first = start - off;
+    let nbits = first + step * (count - 1) + 1;
+    let nbytes = ((nbits + 7) / 8) as usize;
+    let mut bytes = vec![0u8; nbytes];
+    for k in 0..count {
+        let bit = first + step * k;
+        bytes[(bit / 8) as usize] |= 1 << (bit % 8);
+    }
+    let mut h = String::with_capacity(nbytes * 2);
+    for b in &bytes {
+        write!(h, "{:02x}", b).unwrap();
+    }
+    writeln!(out, "from_lsb0 {} {} hex:{}", tmp, off, h).unwrap();
+    writeln!(out, "or ar {} {} {}", dst, dst, tmp).unwrap();
+}
